@@ -52,3 +52,19 @@ pub(crate) fn cut_convert_amount<'ctx>(
     kani::assume(false);
     Ok(amount.clone())
 }
+
+/// Kani stub for insert_price in whole-transaction harnesses: only counts (insert_price is total for
+/// every event: c09_insert_price).
+#[cfg(kani)]
+pub(crate) fn insert_price_recorder_lenient<'ctx>(
+    _b: &mut PriceRepositoryBuilder<'ctx>,
+    _source: PriceSource,
+    event: PriceEvent<'ctx>,
+) where
+    'ctx: 'ctx,
+{
+    core::mem::forget(event);
+    unsafe {
+        RECORDED += 1;
+    }
+}
